@@ -136,3 +136,13 @@ Definition side0 (sn : inode -> nattr) (se : iedge -> Z) (tpl : its) : molg := i
 (** counting; [bonded se tpl k h] = the template has a bond between k and h on the side selected by [se] *)
 Definition countZ {A} (P : A -> bool) (l : list A) : Z := Z.of_nat (length (filter P l)).
 Definition bonded (se : iedge -> Z) (tpl : its) (k h : N) : bool := match adj tpl k h with Some x => 0 <? se x | None => false end.
+
+(** the prepared rule is balanced when, for the removed hydrogens R and the kept non-hydrogen atoms K (both determined by
+    the template), every removed hydrogen keeps its number of bonds to K and the kept atoms keep the total charge *)
+Definition tpl_condition (tpl : its) : Prop :=
+  forall R K, NoDup R -> NoDup K ->
+    (forall h, In h R <-> is_H_i tpl h = true /\ heavy_nbr (side0 iG eG tpl) h = true /\ heavy_nbr (side0 iH eH tpl) h = true) ->
+    (forall k, In k K <-> In k (node_ids tpl) /\ is_H_i tpl k = false) ->
+    (forall h, In h R -> countZ (fun k => bonded eH tpl k h) K = countZ (fun k => bonded eG tpl k h) K) /\
+    sumL dQ (filter (keepn R) (gnodes tpl)) = 0.
+
